@@ -511,12 +511,12 @@ func init() {
 				jobs = append(jobs, Job{Dir: "z80", Harness: "VC08Script", Params: []int{bp, k, 0}, Label: fmt.Sprintf("VC08Script/bp%d/k%d", bp, k), MaxForks: 4096, MaxPaths: 100000})
 				jobs = append(jobs, Job{Dir: "z80", Harness: "VC08Script", Params: []int{bp, k, 1}, Label: fmt.Sprintf("VC08Script/bp%d/k%d/nmi", bp, k), MaxForks: 4096, MaxPaths: 100000})
 			}
-			for p := 0; p <= 13; p++ {
+			for p := 0; p <= 14; p++ {
 				jobs = append(jobs, Job{Dir: "z80", Harness: "VC08Prog", Params: []int{p}, Label: fmt.Sprintf("VC08Prog/%d", p), MaxForks: 256})
 			}
 			return jobs
 		},
-		Bounds: map[string]interface{}{"scripted": "all programs of <= 3 (thorough 4) instructions drawn from {HALT, NOP, JP nn, LD BC,nn, INC A} with arbitrary operands, arbitrary start state and stale HALT flag, BreakPoints nil or an arbitrary set of <= 2 addresses; Run with the real Step vs a Step-driven twin with the stop rule written out", "scripted_interrupts": "same with the device raising an NMI during any instruction (shapes HALT, NOP, INC A)", "skeletons": "14 concrete program skeletons (<= 8 Steps) on an address-consistent bus with symbolic registers/data: HALT first, NOPs+HALT, breakpoint on start PC / on the HALT / inside a 3-byte instruction / across PC wrap / on a jumped-to HALT, DJNZ loop, second Run on a halted CPU, OUT whose device raises NMI / INT (enabled, disabled), the same with a breakpoint on the handler entry"},
+		Bounds: map[string]interface{}{"scripted": "all programs of <= 3 (thorough 4) instructions drawn from {HALT, NOP, JP nn, LD BC,nn, INC A} with arbitrary operands, arbitrary start state and stale HALT flag, BreakPoints nil or an arbitrary set of <= 2 addresses; Run with the real Step vs a Step-driven twin with the stop rule written out", "scripted_interrupts": "same with the device raising an NMI during any instruction (shapes HALT, NOP, INC A)", "skeletons": "15 concrete program skeletons (<= 8 Steps) on an address-consistent bus with symbolic registers/data: HALT first, NOPs+HALT, breakpoint on start PC / on the HALT / inside a 3-byte instruction / across PC wrap / on a jumped-to HALT, DJNZ loop, second Run on a halted CPU, OUT whose device raises NMI / INT (enabled, disabled), the same with a breakpoint on the handler entry, Run again on a halted CPU with an NMI pending"},
 		Assume: []string{"cancellation never happens (C13 covers it)", "scripted memory is not address-consistent (it models arbitrary instruction streams); address-consistent behaviour is covered by the skeletons", "programs longer than the bound: by induction over loop iterations (Run keeps no state between iterations besides the CPU — checked by the twin equality at every length up to the bound)"},
 		Stubs:  runStubs,
 		Rule:   "2 scripted jobs (every path = one program shape x stop behaviour) + 12 skeleton jobs; obligations: return value, number of Steps, final States/HALT, write log or bus trace, memory",
